@@ -684,4 +684,48 @@ theorem ballMatched_of_conforming {φ : Int → Int → Int → G} (hφ : Alt φ
   rw [e1, e2] at h
   exact sub_eq_zero.mp h
 
+
+theorem ball_idx_nodup {β : Type} (s : Cells β) (nodes : β → List Int) (n0 n1 : Int)
+    (h0 : ((s.having nodes n0).map (·.1)).Nodup) (h1 : ((s.having nodes n1).map (·.1)).Nodup) :
+    (((ballA s nodes n0) ++ (ballB s nodes n0 n1)).map fun p => (p.1 : Int)).Nodup := by
+  have inj : ∀ (l : List (Nat × β)), (l.map (·.1)).Nodup → (l.map fun p => (p.1 : Int)).Nodup := by
+    intro l hl
+    have : (l.map fun p => (p.1 : Int)) = (l.map (·.1)).map (fun (i : Nat) => (i : Int)) := by
+      rw [List.map_map]; rfl
+    rw [this]
+    exact hl.map (fun a b hab => by exact_mod_cast hab)
+  rw [List.map_append]
+  refine List.nodup_append.mpr ⟨inj _ h0, ?_, ?_⟩
+  · apply inj
+    unfold ballB freshCells
+    exact h1.sublist ((List.filter_sublist).map _)
+  · intro x hx y hy hxy
+    subst hxy
+    obtain ⟨p, hp, rfl⟩ := List.mem_map.mp hy
+    have := (List.mem_filter.mp hp).2
+    simp only [Bool.not_eq_true', ballA] at this
+    have hc : ((s.having nodes n0).map fun p => (p.1 : Int)).contains (p.1 : Int) = true :=
+      List.contains_iff_mem.mpr hx
+    rw [hc] at this; cases this
+
+theorem BallFormed.cavInv {φ : Int → Int → Int → G} {g : Grid α} {n0 n1 : Int} {c' : Cav}
+    (h : BallFormed φ g n0 n1 c')
+    (hndt0 : ((g.tets.having Tet.nodes n0).map (·.1)).Nodup) (hndt1 : ((g.tets.having Tet.nodes n1).map (·.1)).Nodup)
+    (hnds0 : ((g.tris.having Tri.nodes n0).map (·.1)).Nodup) (hnds1 : ((g.tris.having Tri.nodes n1).map (·.1)).Nodup) :
+    CavInv g c' := by
+  refine ⟨h.finv, h.sinv, ?_, by rw [h.tets]; exact ball_idx_nodup g.tets Tet.nodes n0 n1 hndt0 hndt1, ?_,
+    by rw [h.tris]; exact ball_idx_nodup g.tris Tri.nodes n0 n1 hnds0 hnds1⟩
+  · intro cell hc
+    rw [h.tets] at hc
+    obtain ⟨p, hp, rfl⟩ := List.mem_map.mp hc
+    rcases List.mem_append.mp hp with h1 | h1
+    · exact ⟨p.2, having_get g.tets Tet.nodes n0 p h1⟩
+    · exact ⟨p.2, having_get g.tets Tet.nodes n1 p (freshCells_mem _ _ p h1)⟩
+  · intro cell hc
+    rw [h.tris] at hc
+    obtain ⟨p, hp, rfl⟩ := List.mem_map.mp hc
+    rcases List.mem_append.mp hp with h1 | h1
+    · exact ⟨p.2, having_get g.tris Tri.nodes n0 p h1⟩
+    · exact ⟨p.2, having_get g.tris Tri.nodes n1 p (freshCells_mem _ _ p h1)⟩
+
 end Refine.Lemmas.Cavity2
